@@ -396,13 +396,14 @@ def run(tier):
     rep = common.Report('C14', tier, 'other', './check C14 --tier %s' % tier)
     rep.trust('pyvc (havoc/invariant loops, unknown-value abstraction), z3; CPython for the bounded generator runs')
     rep.assume('decode() contract (first address == start, 1 <= size <= 4, consecutive addresses, all in [start, end)) is proved here for rst_handler=None (props/decodevc.py); RST-argument handling is not under VC')
-    rep.assume('read_map and Disassembly return addresses within the requested range: assumed here, observed in the bounded runs (_get_text_blocks: proved, props/c14text.py)')
+    rep.assume('Disassembly returns addresses within the requested range: assumed here, observed in the bounded runs (_get_text_blocks: proved, props/c14text.py; read_map block building: proved, props/c14map.py)')
     rep.assume('steps (3)-(7) of _generate_ctls_with_code_map mutate ctls with keys taken from ctls itself or from the above functions: not under VC, bounded only (the three dictionary phases of _generate_ctls_without_code_map are under VC, props/c14dict.py); termination of the fix-point loops is only observed')
     from props import decodevc
     decodevc.check_decode(rep, 'C14')
     check_find_terminal(rep)
     check_without_code_map(rep)
-    from props import c14text, c14dict
+    from props import c14text, c14dict, c14map
+    c14map.check_read_map(rep, 'C14')             # code-map blocks: increasing, disjoint, every map address inside a block
     c14text.check_text_scanners(rep, 'C14')       # _check_text / _get_text_blocks: blocks inside the requested range
     c14dict.check_dict_phases(rep, 'C14')         # zero-block / join / text phases keep {start, end} and the 'i' at end
     quick = tier == 'quick'
@@ -444,6 +445,14 @@ def replay(path):
         return 0
     if 'bytes at end-1' in case:
         r = replay_without_map({'start': case['start'], 'end': case['end']}, '')
+        print(r['diffs'])
+        if r['diffs']:
+            print('VIOLATION property=C14 replay=%s' % path)
+            return 1
+        return 0
+    if 'map_addresses' in case:
+        from props import c14map
+        r = c14map.replay_read_map({}, '')
         print(r['diffs'])
         if r['diffs']:
             print('VIOLATION property=C14 replay=%s' % path)
